@@ -12,6 +12,7 @@ import JSV.Proofs.DefinedGuarded
 import JSV.Proofs.FloatMult
 import JSV.Generated.Facts
 import JSV.Proofs.SpecLaws
+import JSV.Proofs.SpecLawsCongr
 namespace JSV.C01
 open JSV Go GoVal Refine
 
@@ -622,6 +623,139 @@ theorem not_not_verdict (m : NodeId) (nm : Node) (t : NodeId) (hn : env.st.get? 
   | none => rfl
   | some r => cases r <;> rfl
 
+/-! ### 4. `anyOf` / `allOf` read their branches as a set, `oneOf` counts
+
+Stated for a branch list ANYWHERE in a schema: the store with the object at `s` overwritten
+(`env.st.setIfInBounds s { n with anyOf := … }`) against the original store, for every schema `root` of the store. -/
+
+/-- reordering, repeating or deduplicating the branches of an `anyOf` anywhere in a schema changes neither the definedness
+    nor the verdict of any schema of the store, on any instance -/
+theorem anyOf_set_invariant (hwf : StoreWF env.st) (ss ss' : List NodeId) (hn : env.st.get? s = some n)
+    (h : n.anyOf = some ss) (hset : ∀ t, t ∈ ss ↔ t ∈ ss') (root : NodeId) (hj : Json.WF j = true) :
+    (Spec.evalFuel { env with st := env.st.setIfInBounds s { n with anyOf := some ss' } } fuel scope root j).map (·.isSome)
+      = (Spec.evalFuel env fuel scope root j).map (·.isSome) :=
+  Laws.evalFuel_set_verdict env s n _ hn (Laws.NodeEqv_anyOf env s n ss ss' h hset) hwf fuel scope root j hj
+
+/-- … and the evaluated properties / items are the same sets -/
+theorem anyOf_set_invariant_evaluated (hwf : StoreWF env.st) (ss ss' : List NodeId) (hn : env.st.get? s = some n)
+    (h : n.anyOf = some ss) (hset : ∀ t, t ∈ ss ↔ t ∈ ss') (root : NodeId) (hj : Json.WF j = true) (e e' : Spec.Ev)
+    (h1 : Spec.evalFuel env fuel scope root j = some (some e))
+    (h2 : Spec.evalFuel { env with st := env.st.setIfInBounds s { n with anyOf := some ss' } } fuel scope root j
+      = some (some e')) :
+    (∀ k, k ∈ e.props ↔ k ∈ e'.props) ∧ (∀ i, i ∈ e.items ↔ i ∈ e'.items) :=
+  Laws.evalFuel_set_evaluated env s n _ hn (Laws.NodeEqv_anyOf env s n ss ss' h hset) hwf fuel scope root j hj e e' h1 h2
+
+/-- the same for `allOf` -/
+theorem allOf_set_invariant (hwf : StoreWF env.st) (ss ss' : List NodeId) (hn : env.st.get? s = some n)
+    (h : n.allOf = some ss) (hset : ∀ t, t ∈ ss ↔ t ∈ ss') (root : NodeId) (hj : Json.WF j = true) :
+    (Spec.evalFuel { env with st := env.st.setIfInBounds s { n with allOf := some ss' } } fuel scope root j).map (·.isSome)
+      = (Spec.evalFuel env fuel scope root j).map (·.isSome) :=
+  Laws.evalFuel_set_verdict env s n _ hn (Laws.NodeEqv_allOf env s n ss ss' h hset) hwf fuel scope root j hj
+
+/-- `oneOf` is invariant under reordering its branches (not under repetition: `oneOf_double_rejects`) -/
+theorem oneOf_perm_invariant (hwf : StoreWF env.st) (ss ss' : List NodeId) (hn : env.st.get? s = some n)
+    (h : n.oneOf = some ss) (hp : ss.Perm ss') (root : NodeId) (hj : Json.WF j = true) :
+    (Spec.evalFuel { env with st := env.st.setIfInBounds s { n with oneOf := some ss' } } fuel scope root j).map (·.isSome)
+      = (Spec.evalFuel env fuel scope root j).map (·.isSome) :=
+  Laws.evalFuel_set_verdict env s n _ hn (Laws.NodeEqv_oneOf env s n ss ss' h hp) hwf fuel scope root j hj
+
+/-- `oneOf [t, t]` rejects every instance on which `t` is defined — in particular whatever `t` accepts -/
+theorem oneOf_double_rejects (t : NodeId) (hn : env.st.get? s = some n) (hk : Laws.keywords n = { oneOf := some [t, t] }) :
+    Spec.evalFuel env (fuel + 1) scope s j = (Spec.evalFuel env fuel (scope ++ [s]) t j).map fun _ => none := by
+  rw [Laws.evalFuel_succ_of env fuel scope s j n _ hn hk, Laws.specBody_oneOf, Laws.kwOneOf_double _ _ _ t rfl]
+
+/-! ### 5. `if` / `then` / `else` -/
+
+/-- `if c then t else e` where `c` holds: the conjunction of `c` and `t` (verdict of `t`, evaluated sets united) -/
+theorem if_true_then (c t : NodeId) (e : Option NodeId) (evc : Spec.Ev) (hn : env.st.get? s = some n)
+    (hk : Laws.keywords n = { if_ := some c, then_ := some t, else_ := e })
+    (hc : Spec.evalFuel env fuel (scope ++ [s]) c j = some (some evc)) :
+    Spec.evalFuel env (fuel + 1) scope s j
+      = (Spec.evalFuel env fuel (scope ++ [s]) t j).map fun rt => rt.map fun evt => evc.union evt := by
+  rw [Laws.evalFuel_succ_of env fuel scope s j n _ hn hk, Laws.specBody_if, Laws.kwIf_true _ _ _ c t evc rfl rfl hc]
+
+/-- `if c then t else e` where `c` fails: `e` -/
+theorem if_false_else (c e : NodeId) (t : Option NodeId) (hn : env.st.get? s = some n)
+    (hk : Laws.keywords n = { if_ := some c, then_ := t, else_ := some e })
+    (hc : Spec.evalFuel env fuel (scope ++ [s]) c j = some none) :
+    Spec.evalFuel env (fuel + 1) scope s j = Spec.evalFuel env fuel (scope ++ [s]) e j := by
+  rw [Laws.evalFuel_succ_of env fuel scope s j n _ hn hk, Laws.specBody_if, Laws.kwIf_false _ _ _ c e rfl rfl hc]
+
+/-- the verdict of `if c then t else e` is that of `(c ∧ t) ∨ (¬c ∧ e)` -/
+theorem if_then_else_verdict (c t e : NodeId) (rc rt re : Spec.R) (hn : env.st.get? s = some n)
+    (hk : Laws.keywords n = { if_ := some c, then_ := some t, else_ := some e })
+    (hc : Spec.evalFuel env fuel (scope ++ [s]) c j = some rc) (ht : Spec.evalFuel env fuel (scope ++ [s]) t j = some rt)
+    (he : Spec.evalFuel env fuel (scope ++ [s]) e j = some re) :
+    (Spec.evalFuel env (fuel + 1) scope s j).map (·.isSome)
+      = some ((rc.isSome && rt.isSome) || (!rc.isSome && re.isSome)) := by
+  rw [Laws.evalFuel_succ_of env fuel scope s j n _ hn hk, Laws.specBody_if,
+    Laws.kwIf_verdict _ _ _ c t e rc rt re rfl rfl rfl hc ht he]
+
+/-- `if` without `then` and `else` never rejects; when the condition holds, what it evaluated counts
+    (`C07.if_alone_annotations`) -/
+theorem if_alone (c : NodeId) (hn : env.st.get? s = some n) (hk : Laws.keywords n = { if_ := some c }) :
+    Spec.evalFuel env (fuel + 1) scope s j
+      = (Spec.evalFuel env fuel (scope ++ [s]) c j).map fun rc => some (rc.getD {}) := by
+  rw [Laws.evalFuel_succ_of env fuel scope s j n _ hn hk, Laws.specBody_if, Laws.kwIf_alone _ _ _ c rfl rfl rfl]
+
+/-- … in particular its verdict, whenever defined, is "valid" -/
+theorem if_alone_never_rejects (c : NodeId) (hn : env.st.get? s = some n) (hk : Laws.keywords n = { if_ := some c }) :
+    Spec.evalFuel env (fuel + 1) scope s j ≠ some none := by
+  rw [if_alone env fuel scope s n j c hn hk]
+  cases Spec.evalFuel env fuel (scope ++ [s]) c j <;> simp
+
+/-! ### 6. `const`, `enum`, `type` -/
+
+/-- `const v` ≡ `enum [v]`, as the only keyword of two schema objects: the same outcome (no fuel beyond one unit, any scopes) -/
+theorem const_enum_singleton (v : Json) (s' : NodeId) (n' : Node) (scope' : List NodeId) (hn : env.st.get? s = some n)
+    (hk : Laws.keywords n = { const := some v }) (hn' : env.st.get? s' = some n')
+    (hk' : Laws.keywords n' = { enum := some [v] }) :
+    Spec.evalFuel env (fuel + 1) scope s j = Spec.evalFuel env (fuel + 1) scope' s' j := by
+  rw [Laws.evalFuel_succ_of env fuel scope s j n _ hn hk, Laws.evalFuel_succ_of env fuel scope' s' j n' _ hn' hk',
+    Laws.specBody_assertion_node _ _ _ _ _ _ (by constructor <;> rfl) (by constructor <;> rfl),
+    Laws.specBody_assertion_node _ _ _ _ _ _ (by constructor <;> rfl) (by constructor <;> rfl),
+    Laws.asserts_const_enum env _ j v rfl rfl]
+
+/-- `const v` ≡ `enum [v]` next to ANY other keywords, anywhere in a schema: rewriting the object changes no outcome of
+    the Spec (evaluated sets included), for any schema of the store -/
+theorem const_enum_singleton_in_context (v : Json) (hn : env.st.get? s = some n) (hc : n.const = some v)
+    (he : n.enum = none) (root : NodeId) :
+    Spec.evalFuel { env with st := env.st.setIfInBounds s { n with const := none, enum := some [v] } } fuel scope root j
+      = Spec.evalFuel env fuel scope root j := by
+  rw [Laws.evalFuel_set_eq env s n _ hn (fun rec sc j' => Laws.specBody_const_enum env rec sc s j' n v hc he)]
+
+/-- `enum` reads its list as a set: reordering / repeating / deduplicating the values changes no outcome -/
+theorem enum_set_invariant (es es' : List Json) (hn : env.st.get? s = some n) (he : n.enum = some es)
+    (hset : ∀ v, v ∈ es ↔ v ∈ es') (root : NodeId) :
+    Spec.evalFuel { env with st := env.st.setIfInBounds s { n with enum := some es' } } fuel scope root j
+      = Spec.evalFuel env fuel scope root j := by
+  rw [Laws.evalFuel_set_eq env s n _ hn (fun rec sc j' => Laws.specBody_enum_set env rec sc s j' n es es' he hset)]
+
+/-- `type: [t]` ≡ `type: t` (the two Go fields `Types` / `Type`; `t ≠ ""` because the empty `Type` means "absent") -/
+theorem type_singleton (t : String) (ht : t ≠ "") (hn : env.st.get? s = some n) (h1 : n.type = "")
+    (h2 : n.types = some [t]) (root : NodeId) :
+    Spec.evalFuel { env with st := env.st.setIfInBounds s { n with type := t, types := none } } fuel scope root j
+      = Spec.evalFuel env fuel scope root j := by
+  rw [Laws.evalFuel_set_eq env s n _ hn (fun rec sc j' => Laws.specBody_type_singleton env rec sc s j' n t ht h1 h2)]
+
+/-- `type: "number"` accepts whatever `type: "integer"` accepts -/
+theorem type_integer_number (s' : NodeId) (n' : Node) (scope' : List NodeId) (hn : env.st.get? s = some n)
+    (hk : Laws.keywords n = { type := "integer" }) (hn' : env.st.get? s' = some n')
+    (hk' : Laws.keywords n' = { type := "number" })
+    (h : Spec.evalFuel env (fuel + 1) scope s j = some (some {})) :
+    Spec.evalFuel env (fuel + 1) scope' s' j = some (some {}) := by
+  rw [Laws.evalFuel_succ_of env fuel scope s j n _ hn hk,
+    Laws.specBody_assertion_node _ _ _ _ _ _ (by constructor <;> rfl) (by constructor <;> rfl)] at h
+  rw [Laws.evalFuel_succ_of env fuel scope' s' j n' _ hn' hk',
+    Laws.specBody_assertion_node _ _ _ _ _ _ (by constructor <;> rfl) (by constructor <;> rfl)]
+  rw [Laws.assertsOf_type_only env j "integer" (by decide)] at h
+  rw [Laws.assertsOf_type_only env j "number" (by decide)]
+  have hi : Spec.typeMatches "integer" j = true := by
+    cases hm : Spec.typeMatches "integer" j with
+    | true => rfl
+    | false => rw [hm] at h; simp at h
+  rw [Laws.typeMatches_integer_number j hi]; rfl
+
 end laws
 
 /-! ### the same laws for the evaluator -/
@@ -710,6 +844,127 @@ theorem not_not_go (m : NodeId) (nm : Node) (t : NodeId) (hn : env.st.get? s = s
     rw [Laws.go_verdict env hwf hst _ _ hs2 t j hj r hr, Laws.go_verdict env hwf hst _ _ hstack s j hj _ hl]
     cases r <;> rfl
 
+/-- evaluator: reordering / repeating / deduplicating the branches of an `anyOf` anywhere in a schema does not change
+    what `Validate` returns for any schema of the store -/
+theorem anyOf_set_invariant_go (ss ss' : List NodeId) (hn : env.st.get? s = some n) (h : n.anyOf = some ss)
+    (hset : ∀ t, t ∈ ss ↔ t ∈ ss') (root : NodeId)
+    (hdef : (Spec.evalFuel (specEnvOf env) fuel stack root j).isSome = true) :
+    (Go.validateFuel { env with st := env.st.setIfInBounds s { n with anyOf := some ss' } } fuel stack (GoVal.ofJson j)
+      root).verdict = (Go.validateFuel env fuel stack (GoVal.ofJson j) root).verdict :=
+  Laws.go_set_verdict env hwf hst s n _ hn (Laws.NodeEqv_anyOf _ s n ss ss' h hset) rfl fuel stack hstack root j hj hdef
+
+/-- evaluator: the same for `allOf` -/
+theorem allOf_set_invariant_go (ss ss' : List NodeId) (hn : env.st.get? s = some n) (h : n.allOf = some ss)
+    (hset : ∀ t, t ∈ ss ↔ t ∈ ss') (root : NodeId)
+    (hdef : (Spec.evalFuel (specEnvOf env) fuel stack root j).isSome = true) :
+    (Go.validateFuel { env with st := env.st.setIfInBounds s { n with allOf := some ss' } } fuel stack (GoVal.ofJson j)
+      root).verdict = (Go.validateFuel env fuel stack (GoVal.ofJson j) root).verdict :=
+  Laws.go_set_verdict env hwf hst s n _ hn (Laws.NodeEqv_allOf _ s n ss ss' h hset) rfl fuel stack hstack root j hj hdef
+
+/-- evaluator: reordering the branches of a `oneOf` -/
+theorem oneOf_perm_invariant_go (ss ss' : List NodeId) (hn : env.st.get? s = some n) (h : n.oneOf = some ss)
+    (hp : ss.Perm ss') (root : NodeId) (hdef : (Spec.evalFuel (specEnvOf env) fuel stack root j).isSome = true) :
+    (Go.validateFuel { env with st := env.st.setIfInBounds s { n with oneOf := some ss' } } fuel stack (GoVal.ofJson j)
+      root).verdict = (Go.validateFuel env fuel stack (GoVal.ofJson j) root).verdict :=
+  Laws.go_set_verdict env hwf hst s n _ hn (Laws.NodeEqv_oneOf _ s n ss ss' h hp) rfl fuel stack hstack root j hj hdef
+
+/-- evaluator: `oneOf [t, t]` returns an error whenever `t` is decided -/
+theorem oneOf_double_rejects_go (t : NodeId) (hn : env.st.get? s = some n)
+    (hk : Laws.keywords n = { oneOf := some [t, t] })
+    (hdef : (Spec.evalFuel (specEnvOf env) fuel (stack ++ [s]) t j).isSome = true) :
+    Go.validateFuel env (fuel + 1) stack (GoVal.ofJson j) s = .err := by
+  have hrel := validate_refines_spec env hwf hst (fuel + 1) stack hstack s j hj
+  rw [oneOf_double_rejects (specEnvOf env) fuel stack s n j t hn hk] at hrel
+  cases hr : Spec.evalFuel (specEnvOf env) fuel (stack ++ [s]) t j with
+  | none => rw [hr] at hdef; cases hdef
+  | some r => rw [hr] at hrel; exact hrel
+
+/-- evaluator: `if c then t else e` returns nil exactly when `(c ∧ t) ∨ (¬c ∧ e)` -/
+theorem if_then_else_verdict_go (c t e : NodeId) (hn : env.st.get? s = some n)
+    (hk : Laws.keywords n = { if_ := some c, then_ := some t, else_ := some e })
+    (hc : (Spec.evalFuel (specEnvOf env) fuel (stack ++ [s]) c j).isSome = true)
+    (ht : (Spec.evalFuel (specEnvOf env) fuel (stack ++ [s]) t j).isSome = true)
+    (he : (Spec.evalFuel (specEnvOf env) fuel (stack ++ [s]) e j).isSome = true) :
+    ∃ vc vt ve, (Go.validateFuel env fuel (stack ++ [s]) (GoVal.ofJson j) c).verdict = some vc ∧
+      (Go.validateFuel env fuel (stack ++ [s]) (GoVal.ofJson j) t).verdict = some vt ∧
+      (Go.validateFuel env fuel (stack ++ [s]) (GoVal.ofJson j) e).verdict = some ve ∧
+      (Go.validateFuel env (fuel + 1) stack (GoVal.ofJson j) s).verdict = some ((vc && vt) || (!vc && ve)) := by
+  have hs' := Laws.stack_snoc env hwf stack hstack s n hn
+  obtain ⟨rc, hrc⟩ := Option.isSome_iff_exists.1 hc
+  obtain ⟨rt, hrt⟩ := Option.isSome_iff_exists.1 ht
+  obtain ⟨re, hre⟩ := Option.isSome_iff_exists.1 he
+  refine ⟨rc.isSome, rt.isSome, re.isSome, Laws.go_verdict env hwf hst _ _ hs' c j hj rc hrc,
+    Laws.go_verdict env hwf hst _ _ hs' t j hj rt hrt, Laws.go_verdict env hwf hst _ _ hs' e j hj re hre, ?_⟩
+  have hv := if_then_else_verdict (specEnvOf env) fuel stack s n j c t e rc rt re hn hk hrc hrt hre
+  cases hr : Spec.evalFuel (specEnvOf env) (fuel + 1) stack s j with
+  | none => rw [hr] at hv; cases hv
+  | some r =>
+    rw [hr] at hv
+    simp only [Option.map_some, Option.some.injEq] at hv
+    rw [Laws.go_verdict env hwf hst _ _ hstack s j hj r hr, hv]
+
+/-- evaluator: `if` alone never returns an error -/
+theorem if_alone_go (c : NodeId) (hn : env.st.get? s = some n) (hk : Laws.keywords n = { if_ := some c })
+    (hdef : (Spec.evalFuel (specEnvOf env) fuel (stack ++ [s]) c j).isSome = true) :
+    (Go.validateFuel env (fuel + 1) stack (GoVal.ofJson j) s).verdict = some true := by
+  obtain ⟨rc, hrc⟩ := Option.isSome_iff_exists.1 hdef
+  have hl := if_alone (specEnvOf env) fuel stack s n j c hn hk
+  rw [hrc] at hl
+  exact Laws.go_verdict env hwf hst _ _ hstack s j hj _ hl
+
+/-- evaluator: `{"const": v}` and `{"enum": [v]}` return the same verdict on every instance (no hypothesis on the Spec:
+    a schema object with assertion keywords only is decided with one unit of fuel) -/
+theorem const_enum_singleton_go (v : Json) (s' : NodeId) (n' : Node) (stack' : List NodeId)
+    (hstack' : ∀ x, x ∈ stack' → (env.info? x).isSome = true) (hn : env.st.get? s = some n)
+    (hk : Laws.keywords n = { const := some v }) (hn' : env.st.get? s' = some n')
+    (hk' : Laws.keywords n' = { enum := some [v] }) :
+    (Go.validateFuel env (fuel + 1) stack (GoVal.ofJson j) s).verdict
+      = (Go.validateFuel env (fuel + 1) stack' (GoVal.ofJson j) s').verdict := by
+  refine (Laws.go_same env hwf hst _ _ _ _ hstack hstack' s s' j hj
+    (const_enum_singleton (specEnvOf env) fuel stack s n j v s' n' stack' hn hk hn' hk') ?_).1
+  rw [Laws.evalFuel_succ_of (specEnvOf env) fuel stack' s' j n' _ hn' hk',
+    Laws.specBody_assertion_node _ _ _ _ _ _ (by constructor <;> rfl) (by constructor <;> rfl)]
+  rfl
+
+/-- evaluator: rewriting `const v` into `enum [v]` next to any other keywords, anywhere in a schema -/
+theorem const_enum_singleton_in_context_go (v : Json) (hn : env.st.get? s = some n) (hc : n.const = some v)
+    (he : n.enum = none) (root : NodeId) (hdef : (Spec.evalFuel (specEnvOf env) fuel stack root j).isSome = true) :
+    (Go.validateFuel { env with st := env.st.setIfInBounds s { n with const := none, enum := some [v] } } fuel stack
+      (GoVal.ofJson j) root).verdict = (Go.validateFuel env fuel stack (GoVal.ofJson j) root).verdict :=
+  Laws.go_set_verdict env hwf hst s n _ hn (Laws.NodeEqv_const_enum _ s n v hc he) rfl fuel stack hstack root j hj hdef
+
+/-- evaluator: reordering / repeating / deduplicating the values of an `enum` -/
+theorem enum_set_invariant_go (es es' : List Json) (hn : env.st.get? s = some n) (he : n.enum = some es)
+    (hset : ∀ v, v ∈ es ↔ v ∈ es') (root : NodeId)
+    (hdef : (Spec.evalFuel (specEnvOf env) fuel stack root j).isSome = true) :
+    (Go.validateFuel { env with st := env.st.setIfInBounds s { n with enum := some es' } } fuel stack
+      (GoVal.ofJson j) root).verdict = (Go.validateFuel env fuel stack (GoVal.ofJson j) root).verdict :=
+  Laws.go_set_verdict env hwf hst s n _ hn (Laws.NodeEqv_enum_set _ s n es es' he hset) rfl fuel stack hstack root j hj hdef
+
+/-- evaluator: `Types: [t]` against `Type: t` -/
+theorem type_singleton_go (t : String) (ht : t ≠ "") (hn : env.st.get? s = some n) (h1 : n.type = "")
+    (h2 : n.types = some [t]) (root : NodeId) (hdef : (Spec.evalFuel (specEnvOf env) fuel stack root j).isSome = true) :
+    (Go.validateFuel { env with st := env.st.setIfInBounds s { n with type := t, types := none } } fuel stack
+      (GoVal.ofJson j) root).verdict = (Go.validateFuel env fuel stack (GoVal.ofJson j) root).verdict :=
+  Laws.go_set_verdict env hwf hst s n _ hn (Laws.NodeEqv_type_singleton _ s n t ht h1 h2) rfl fuel stack hstack root j hj
+    hdef
+
+/-- evaluator: what `{"type": "integer"}` accepts, `{"type": "number"}` accepts -/
+theorem type_integer_number_go (s' : NodeId) (n' : Node) (stack' : List NodeId)
+    (hstack' : ∀ x, x ∈ stack' → (env.info? x).isSome = true) (hn : env.st.get? s = some n)
+    (hk : Laws.keywords n = { type := "integer" }) (hn' : env.st.get? s' = some n')
+    (hk' : Laws.keywords n' = { type := "number" })
+    (h : (Go.validateFuel env (fuel + 1) stack (GoVal.ofJson j) s).verdict = some true) :
+    (Go.validateFuel env (fuel + 1) stack' (GoVal.ofJson j) s').verdict = some true := by
+  have hs : Spec.evalFuel (specEnvOf env) (fuel + 1) stack s j = some (some {}) := by
+    have e := Laws.evalFuel_succ_of (specEnvOf env) fuel stack s j n _ hn hk
+    rw [Laws.specBody_assertion_node _ _ _ _ _ _ (by constructor <;> rfl) (by constructor <;> rfl)] at e
+    split at e
+    · exact e
+    · rw [Laws.go_verdict env hwf hst _ _ hstack s j hj none e] at h; cases h
+  exact Laws.go_verdict env hwf hst _ _ hstack' s' j hj _
+    (type_integer_number (specEnvOf env) fuel stack s n j s' n' stack' hn hk hn' hk' hs)
+
 end laws_go
 
 /-! ### the laws instantiated
@@ -729,7 +984,20 @@ def lawStore : Store := #[
   /- 8 -/ { anyOf := some [] },
   /- 9 -/ { oneOf := some [] },
   /- 10 -/ { not := some 11 },
-  /- 11 -/ { not := some 2 } ]
+  /- 11 -/ { not := some 2 },
+  /- 12 -/ { oneOf := some [2, 2] },
+  /- 13 -/ { anyOf := some [2, 3], minProperties := some 1 },
+  /- 14 -/ { if_ := some 3, then_ := some 15, else_ := some 2 },
+  /- 15 -/ { maxLength := some 1 },
+  /- 16 -/ { if_ := some 2 },
+  /- 17 -/ { const := some (.num 1) },
+  /- 18 -/ { enum := some [.num 1] },
+  /- 19 -/ { type := "integer" },
+  /- 20 -/ { type := "number" },
+  /- 21 -/ { types := some ["string"], enum := some [.str "x", .str "y", .str "x"], title := "t" },
+  /- 22 -/ { allOf := some [13], unevaluatedProperties := some 1 },
+  /- 23 -/ { const := some (.str "x"), maxLength := some 3 },
+  /- 24 -/ { allOf := some [23, 21] } ]
 
 def lawEnv : VEnv :=
   { st := lawStore, draft := .d2020, infos := (List.range lawStore.size).map fun i => (i, { base := some 0 }),
@@ -787,5 +1055,77 @@ example : (Go.validateFuel lawEnv 4 [] (GoVal.ofJson lawBad) 10).verdict
   not_not_go lawEnv lawEnv_wf lawEnv_store 2 [] (fun _ h => nomatch h) 10 _ lawBad (by decide) 11 _ 2 rfl rfl rfl rfl
     (by decide)
 example : (Go.validateFuel lawEnv 4 [] (GoVal.ofJson lawBad) 10).verdict = some false := by decide
+
+/-- 4: node 22 is `{"allOf": [13], "unevaluatedProperties": false}` with 13 = `{"anyOf": [s, {"type": "string"}], "minProperties": 1}`;
+    rewriting the `anyOf` of node 13 into `[3, 2, 3]` changes nothing for the root 22 -/
+example : (Spec.evalFuel { specEnvOf lawEnv with st := (lawStore.setIfInBounds 13
+      { anyOf := some [3, 2, 3], minProperties := some 1 }) } 5 [] 22 lawGood).map (·.isSome)
+    = (Spec.evalFuel (specEnvOf lawEnv) 5 [] 22 lawGood).map (·.isSome) :=
+  anyOf_set_invariant (specEnvOf lawEnv) 5 [] 13 _ lawGood lawEnv_store [2, 3] [3, 2, 3] rfl rfl
+    (by intro t; simp only [List.mem_cons, List.mem_nil_iff, or_false]; grind) 22 (by decide)
+example : (Spec.evalFuel (specEnvOf lawEnv) 5 [] 22 lawGood).map (·.isSome) = some true := by decide
+example : (Spec.evalFuel (specEnvOf lawEnv) 5 [] 22 (.obj [("a", .str "x"), ("b", .null)])).map (·.isSome) = some false := by
+  decide
+example : (Go.validateFuel { lawEnv with st := lawStore.setIfInBounds 13 { anyOf := some [3, 2, 3], minProperties := some 1 } }
+      5 [] (GoVal.ofJson lawGood) 22).verdict = (Go.validateFuel lawEnv 5 [] (GoVal.ofJson lawGood) 22).verdict :=
+  anyOf_set_invariant_go lawEnv lawEnv_wf lawEnv_store 5 [] (fun _ h => nomatch h) 13 _ lawGood (by decide) [2, 3] [3, 2, 3]
+    rfl rfl (by intro t; simp only [List.mem_cons, List.mem_nil_iff, or_false]; grind) 22 (by decide)
+/-- `oneOf [s, s]` (node 12) rejects what `s` accepts, while `oneOf [s]` (node 6) accepts it: `oneOf` is NOT invariant
+    under repetition -/
+example : Spec.evalFuel (specEnvOf lawEnv) 3 [] 12 lawGood = (Spec.evalFuel (specEnvOf lawEnv) 2 [12] 2 lawGood).map fun _ => none :=
+  oneOf_double_rejects _ 2 [] 12 _ lawGood 2 rfl rfl
+example : Spec.evalFuel (specEnvOf lawEnv) 3 [] 12 lawGood = some none := by rfl
+example : (Spec.evalFuel (specEnvOf lawEnv) 3 [] 6 lawGood).map (·.isSome) = some true := by decide
+example : Go.validateFuel lawEnv 3 [] (GoVal.ofJson lawGood) 12 = .err :=
+  oneOf_double_rejects_go lawEnv lawEnv_wf lawEnv_store 2 [] (fun _ h => nomatch h) 12 _ lawGood (by decide) 2 rfl rfl
+    (by decide)
+
+/-- 5: node 14 is `{"if": {"type": "string"}, "then": {"maxLength": 1}, "else": s}` -/
+example : (Spec.evalFuel (specEnvOf lawEnv) 3 [] 14 (.str "xy")).map (·.isSome) = some ((true && false) || (!true && true)) :=
+  if_then_else_verdict _ 2 [] 14 _ (.str "xy") 3 15 2 (some {}) none (some {}) rfl rfl (by rfl) (by rfl) (by rfl)
+example : Spec.evalFuel (specEnvOf lawEnv) 3 [] 14 lawGood = Spec.evalFuel (specEnvOf lawEnv) 2 [14] 2 lawGood :=
+  if_false_else _ 2 [] 14 _ lawGood 3 2 _ rfl rfl (by rfl)
+example : Spec.evalFuel (specEnvOf lawEnv) 3 [] 14 (.str "x")
+    = (Spec.evalFuel (specEnvOf lawEnv) 2 [14] 15 (.str "x")).map fun rt => rt.map fun evt => Spec.Ev.union {} evt :=
+  if_true_then _ 2 [] 14 _ (.str "x") 3 15 _ {} rfl rfl (by rfl)
+/-- node 16 is `{"if": s}`: accepts the instance `s` rejects, and keeps what `s` evaluated on the one it accepts -/
+example : Spec.evalFuel (specEnvOf lawEnv) 3 [] 16 lawBad
+    = (Spec.evalFuel (specEnvOf lawEnv) 2 [16] 2 lawBad).map fun rc => some (rc.getD {}) :=
+  if_alone _ 2 [] 16 _ lawBad 2 rfl rfl
+example : Spec.evalFuel (specEnvOf lawEnv) 3 [] 16 lawBad = some (some {}) := by rfl
+example : Spec.evalFuel (specEnvOf lawEnv) 3 [] 16 lawGood = some (some { props := ["a"] }) := by rfl
+example : (Go.validateFuel lawEnv 3 [] (GoVal.ofJson lawBad) 16).verdict = some true :=
+  if_alone_go lawEnv lawEnv_wf lawEnv_store 2 [] (fun _ h => nomatch h) 16 _ lawBad (by decide) 2 rfl rfl (by decide)
+
+/-- 6: `{"const": 1}` (17) against `{"enum": [1]}` (18), on `1.0` and on `"1"` -/
+example : Spec.evalFuel (specEnvOf lawEnv) 1 [] 17 (.num 1) = Spec.evalFuel (specEnvOf lawEnv) 1 [5] 18 (.num 1) :=
+  const_enum_singleton _ 0 [] 17 _ (.num 1) (.num 1) 18 _ [5] rfl rfl rfl rfl
+example : (Go.validateFuel lawEnv 1 [] (GoVal.ofJson (.str "1")) 17).verdict
+    = (Go.validateFuel lawEnv 1 [] (GoVal.ofJson (.str "1")) 18).verdict :=
+  const_enum_singleton_go lawEnv lawEnv_wf lawEnv_store 0 [] (fun _ h => nomatch h) 17 _ (.str "1") (by decide) (.num 1) 18 _ []
+    (fun _ h => nomatch h) rfl rfl rfl rfl
+/-- in context: node 23 is `{"const": "x", "maxLength": 3}` under the root 24 = `{"allOf": [23, 21]}` -/
+example : Spec.evalFuel { specEnvOf lawEnv with st := lawStore.setIfInBounds 23 { enum := some [.str "x"], maxLength := some 3 } }
+      4 [] 24 (.str "x") = Spec.evalFuel (specEnvOf lawEnv) 4 [] 24 (.str "x") :=
+  const_enum_singleton_in_context (specEnvOf lawEnv) 4 [] 23 _ (.str "x") (.str "x") rfl rfl rfl 24
+example : (Spec.evalFuel (specEnvOf lawEnv) 4 [] 24 (.str "x")).map (·.isSome) = some true := by decide
+/-- node 21 is `{"type": ["string"], "enum": ["x", "y", "x"]}`: the `enum` deduplicated and reordered, the `type` unwrapped -/
+example : Spec.evalFuel { specEnvOf lawEnv with st := (lawStore.setIfInBounds 21
+      { types := some ["string"], enum := some [.str "y", .str "x"], title := "t" }) } 4 [] 24 (.str "y")
+    = Spec.evalFuel (specEnvOf lawEnv) 4 [] 24 (.str "y") :=
+  enum_set_invariant (specEnvOf lawEnv) 4 [] 21 _ (.str "y") [.str "x", .str "y", .str "x"] [.str "y", .str "x"] rfl rfl
+    (by intro v; simp only [List.mem_cons, List.mem_nil_iff, or_false]; grind) 24
+example : Spec.evalFuel { specEnvOf lawEnv with st := (lawStore.setIfInBounds 21
+      { type := "string", enum := some [.str "x", .str "y", .str "x"], title := "t" }) } 4 [] 24 (.str "y")
+    = Spec.evalFuel (specEnvOf lawEnv) 4 [] 24 (.str "y") :=
+  type_singleton (specEnvOf lawEnv) 4 [] 21 _ (.str "y") "string" (by decide) rfl rfl rfl 24
+/-- `2` is an integer (19), hence a number (20); `2.5` is a number only -/
+example : Spec.evalFuel (specEnvOf lawEnv) 1 [] 20 (.num 2) = some (some {}) :=
+  type_integer_number _ 0 [] 19 _ (.num 2) 20 _ [] rfl rfl rfl rfl (by rfl)
+example : (Spec.evalFuel (specEnvOf lawEnv) 1 [] 19 (.num (5 / 2))).map (·.isSome) = some false
+    ∧ (Spec.evalFuel (specEnvOf lawEnv) 1 [] 20 (.num (5 / 2))).map (·.isSome) = some true := by decide +kernel
+example : (Go.validateFuel lawEnv 1 [] (GoVal.ofJson (.num 2)) 20).verdict = some true :=
+  type_integer_number_go lawEnv lawEnv_wf lawEnv_store 0 [] (fun _ h => nomatch h) 19 _ (.num 2) (by decide) 20 _ []
+    (fun _ h => nomatch h) rfl rfl rfl rfl (by decide)
 
 end JSV.C01
